@@ -181,6 +181,36 @@ def run_cases(rep, tier, seed, prop, impl, model):
                     dn = e["stop"] - s_ns - d_ns                 # epoch >= cmdEnd - recordedStart - recordedDuration
                     hi = up if hi is None else min(hi, up)
                     lo = dn if lo is None else max(lo, dn)
+            # the tempo against the act starts the program recorded itself (the act arrows of plots/plot.gp, one per
+            # act occurrence after the first) and its own action rows: both on the play's clock, no slack needed
+            import re as _re
+            arrows = [float(x) for x in _re.findall(r"^set arrow from (-?[0-9.]+), graph 0 to \S+ graph 1 back nohead lc 'blue'", r.get("plot_gp") or "", _re.M)]
+            pos_of = {id(e): p for p, e in recs}
+            nocc = 1 + max((p[0] for p, _ in recs), default=0)
+            if arrows and len(arrows) >= nocc - 1:
+                OFF = 10**9
+                toks = []
+                for actor in g["actors"]:
+                    rows = playgen.parse_actor_csv(r["csv"].get(actor + ".csv", ""))
+                    mine = [e for _, e in sorted(recs, key=lambda pe: pe[1]["start"]) if e["actor"] == actor]
+                    if len(rows) != len(mine):
+                        continue
+                    byact = {}
+                    for e in mine:
+                        byact.setdefault(e["action"], []).append(e)
+                    for row in rows:
+                        lst = byact.get(row["action"], [])
+                        if lst:
+                            e = lst.pop(0)
+                            s_ns = int(round(row["start"] * 1e9)) + OFF + 1_200_000      # rounding of the two records: 0.1 ms and %f
+                            toks.append("%d.%d.%d.%d.%d:%d:%d:1" % (pos_of[id(e)] + (s_ns, s_ns + int(row["dur"] * 1e9))))
+                starts = [0] + [int(round(a * 1e9)) + OFF for a in arrows]
+                if toks:
+                    o = model.ask("C04 tempook %s %s %s" % (ptok, ",".join(map(str, starts)), ",".join(toks)))
+                    rep.count("tempo-vs-recorded-act-starts")
+                    if o != "ok":
+                        ofail.append({"config": g["text"], "problems": ["an action starts earlier than (column index x tempo) after the recorded start of its act: %s" % o],
+                                      "act_starts": arrows, "tag": {"kind": "ordering", "detail": "ahead of the tempo (recorded act starts)"}})
             if lo is not None and lo > hi + SLACK_NS + 200_000:      # CSV is rounded to 0.1 ms
                 bad_status.append("no single epoch explains the recorded start/duration of all actions (needs >= %d and <= %d)" % (lo, hi))
             if bad_status:
